@@ -243,6 +243,19 @@ class Gen:
     def seq(self, flavor, d, sc):
         vars_, focus = sc
         k = self.k()
+        if self.reuse and vars_ and d < self.max_depth and self.k() < 22:
+            # an inner binder (very likely re-binding a visible name), then an outer variable read again
+            outer = [['var', nm] for nm, kind, fl in self.visible(vars_) if fl in _SUB[flavor]]
+            if outer:
+                kk = self.k(2)
+                if kk == 0:
+                    b, sc2 = self.binds(d, sc)
+                    inner = ['for', b, self.seq(flavor, d + 1, sc2)]
+                elif kk == 1:
+                    inner = ['if', self.quantified(d, sc), self.seq(flavor, d + 1, sc), ['empty']]
+                else:
+                    inner = ['filter', self.seq(flavor, d + 1, sc), self.quantified(d + 1, (vars_, flavor))]
+                return ['seq', inner, _sf(self.draw, outer)]
         if d >= self.max_depth or k < 22:
             cands = [['var', nm] for nm, kind, fl in self.visible(vars_) if fl in _SUB[flavor]]
             if focus is not None and focus in _SUB[flavor]:
@@ -335,7 +348,7 @@ TOP = ((), None)
 
 @st.composite
 def nested_program(draw, version='31', max_depth=3):
-    g = Gen(draw, version, max_depth, reuse=draw(_upto(9)) < 4)
+    g = Gen(draw, version, max_depth, reuse=draw(_upto(9)) < 5)
     k = draw(_upto(99))
     if k < 70:
         return g.seq(_sf(draw, 'iiinnsmu'), 0, TOP)
